@@ -138,6 +138,8 @@ class Evaluator:
                 self._qcache[k] = q
             if not q:
                 s.add(c)
+        for f in lit_facts():
+            s.add(f)
         return s.check() != z3.unsat
 
     def drain(self, st):
@@ -401,6 +403,12 @@ class Evaluator:
             st.heap.list_set(ety, r, z3.IntVal(k), v)
         return st, SV(TList(ety), [r])
 
+    def list_from_seq(self, st, seq):
+        st, r = self.new_ref(st, 1)
+        st.heap.list_set_len(r, seq.t[0])
+        st.heap.list_set_arr(seq.ty.elem, r, [seq.t[1]])
+        return st, SV(TList(seq.ty.elem), [r])
+
     def ev_Attribute(self, e, st):
         out = []
         for s, v in self.ev(e.value, st):
@@ -452,6 +460,12 @@ class Evaluator:
             if isinstance(v.ty, TFunc) and isinstance(v.py.obj, dict):
                 out += self.const_dict_index(v.py.obj, e.slice, s)
                 continue
+            if isinstance(v.ty, TFunc) and isinstance(v.py.obj, (list, tuple)) and not isinstance(e.slice, ast.Slice):
+                for s2, idx in self.ev(e.slice, s):
+                    if idx.py is None or not isinstance(idx.py, int):
+                        raise Unsupported('symbolic index into a constant list')
+                    out.append((s2, self.lift_const(v.py.obj[idx.py])))
+                continue
             if isinstance(e.slice, ast.Slice):
                 if e.slice.step is not None:
                     raise Unsupported('slice step')
@@ -468,7 +482,10 @@ class Evaluator:
                     res = nxt
                 for s2, (lo, hi) in res:
                     val = ops.op_slice(s2.heap, v, lo, hi)
-                    out.append((self.drain(s2), val))
+                    s2 = self.drain(s2)
+                    if isinstance(v.ty, TList):
+                        s2, val = self.list_from_seq(s2, val)       # slicing a list makes a new list
+                    out.append((s2, val))
                 continue
             for s2, idx in self.ev(e.slice, s):
                 val, fail = ops.op_index(s2.heap, v, idx)
@@ -525,6 +542,14 @@ class Evaluator:
                 continue
             s, b = self.unwrap_opt(s, b)
             if s is None:
+                continue
+            if isinstance(e.op, ast.Add) and isinstance(a.ty, TList) and isinstance(b.ty, TList):
+                sa = SV(TSeq(a.ty.elem), [s.heap.list_len(a.term), s.heap.list_arr(a.ty.elem, a.term)[0]])
+                sb = SV(TSeq(a.ty.elem), [s.heap.list_len(b.term), s.heap.list_arr(b.ty.elem, b.term)[0]])
+                cat = ops.seq_concat(sa, sb)
+                s = self.drain(s)
+                s, lst = self.list_from_seq(s, cat)
+                out.append((s, lst))
                 continue
             val, fail = ops.op_binop(e.op, a, b, s.heap)
             s2 = self.need(s, fail)
